@@ -304,19 +304,21 @@ func TestVerifC15(t *testing.T) {
 		if err != nil {
 			continue
 		}
-		before := vpuHash(bc, nil)
+		// pixels only: Content() must not be read before the input is overwritten (a lazily built
+		// content string would otherwise be cached and hide the aliasing)
+		before := fmt.Sprintf("%016x|%v", hlib.PixelHash(bc), bc.Bounds())
 		for i := range data {
 			data[i] ^= 0x5a
 		}
 		data = append(data[:0], "overwritten"...)
-		if after := vpuHash(bc, nil); after != before {
+		if after := fmt.Sprintf("%016x|%v", hlib.PixelHash(bc), bc.Bounds()); after != before {
 			r.Fail("not-a-snapshot", input, fmt.Sprintf("after overwriting the input slice the barcode changed: %s -> %s", before, after))
 		}
 		if bc.Content() != string(orig) {
 			r.Fail("not-a-snapshot", input, fmt.Sprintf("Content()=%q after overwriting the input slice", bc.Content()))
 		}
 		// a second encode of the original bytes still gives the same symbol
-		if bc2, err2 := aztec.Encode(orig, pct, layers); err2 != nil || vpuHash(bc2, nil) != before {
+		if bc2, err2 := aztec.Encode(orig, pct, layers); err2 != nil || fmt.Sprintf("%016x|%v", hlib.PixelHash(bc2), bc2.Bounds()) != before {
 			r.Fail("differs-from-earlier-call", input, "second encode of the same bytes differs")
 		}
 	}
